@@ -57,4 +57,23 @@ ECases == (SUBSET (1..3)) \ {{}}
 EPairs(D, k) == { <<x.v, x.spec>> : x \in Expected(EDoc(D), k + 1) }
 DesignInvE == \A D \in ECases : \A k \in 1..3 :
    EPairs(D, k) = IF k \in D THEN { <<<<100, 48 + k>>, FALSE>> } ELSE {}
+
+(***************************************************************************)
+(* One entity, two kinds of reference: included in an ATTRIBUTE VALUE every *)
+(* white-space character of the replacement text becomes a space (3.3.3),   *)
+(* included in CONTENT it stays what it is - whichever is looked at first.  *)
+(* <!DOCTYPE r [<!ENTITY e "a&#9;b&#10;c">]><r x="&e;">&e;</r>, typed or    *)
+(* not; the harness reads content then attribute, or attribute then content.*)
+(***************************************************************************)
+NX == <<120>>  NE == <<101>>
+SharedEnt == << [n |-> NE, v |-> <<CI(97), [t |-> "r", c |-> 9], CI(98), [t |-> "r", c |-> 10], CI(99)>>] >>
+SDoc(ty) ==
+  [ents |-> SharedEnt,
+   attlists |-> IF ty = "" THEN <<>> ELSE << [el |-> NR, defs |-> << [n |-> NX, ty |-> ty, dk |-> "IMPLIED", dv |-> <<>>] >>] >>,
+   els |-> << [el |-> NR, written |-> << [n |-> NX, v |-> << [t |-> "e", n |-> NE] >>] >>] >>]
+STypes == {"", "CDATA", "NMTOKENS"}
+\* the text: Render gives <r x="&e;"/>; the content reference is put between the tags
+SText(ty) == LET t == Render(SDoc(ty)) IN SubSeq(t, 1, Len(t) - 2) \o <<62, 38, 101, 59, 60, 47, 114, 62>>     \* >&e;</r>
+SAttrValue(ty) == (CHOOSE x \in Expected(SDoc(ty), 1) : x.n = NX).v
+SContent == <<97, 9, 98, 10, 99>>                                 \* a TAB b LF c : the replacement text as it is
 =============================================================================
